@@ -122,8 +122,10 @@ def gen_init(rng, w):
     return rng.getrandbits(w)
 
 
-def crc_ops(rng, w, n_c, n_s, n_a, n_p, maxlen_a=300):
+def crc_ops(rng, w, n_c, n_s, n_a, n_p, maxlen_a=300, n_x=0):
     ops = []
+    for _ in range(n_x):
+        ops.append("X %x" % gen_init(rng, w))
     for _ in range(n_c):
         ops.append("C %x %s" % (gen_init(rng, w), hx(gen_data(rng, gen_len(rng)))))
     for _ in range(n_s):
@@ -163,44 +165,51 @@ def gen_groups(ctx):
     rng = random.Random(ctx.subseed("crc8"))
     for poly in range(256):
         for d in "ml":
-            groups.append(["T 8 %s %x" % (d, poly)] + crc_ops(rng, 8, 6 if quick else 40, 3 if quick else 20, 0, 1 if quick else 6))
+            g = ["T 8 %s %x" % (d, poly)]
+            # every byte value from several (thorough: all 256) running values: the complete
+            # one-step transition relation of the 8-bit register
+            inits = sorted({0, 0xFF, 0x80, 1, rng.getrandbits(8), rng.getrandbits(8)}) if quick else range(256)
+            g += ["X %x" % v for v in inits]
+            g += crc_ops(rng, 8, 16 if quick else 40, 8 if quick else 20, 0, 3 if quick else 6)
+            groups.append(g)
     # --- wider: standard + boundary + random polynomials
     rng = random.Random(ctx.subseed("crcwide"))
-    n_rand = 120 if quick else 3000
+    n_rand = 400 if quick else 3000
     for w in (16, 32, 64):
         polys = list(STD_POLYS[w]) + boundary_words(w) + [1 << i for i in range(w)] + \
             [rng.getrandbits(w) for _ in range(n_rand)]
         for poly in polys:
             for d in "ml":
-                groups.append(["T %d %s %x" % (w, d, poly)] + crc_ops(rng, w, 5 if quick else 12, 3 if quick else 8, 0, 1 if quick else 3))
+                groups.append(["T %d %s %x" % (w, d, poly)] +
+                              crc_ops(rng, w, 8 if quick else 12, 4 if quick else 8, 0, 2 if quick else 3, n_x=2 if quick else 4))
+    # --- thorough: every 16-bit polynomial, both orders, full table (+ all byte values from one value)
+    if not quick:
+        rng = random.Random(ctx.subseed("crc16all"))
+        for base in range(0, 65536, 64):
+            for d in "ml":
+                g = []
+                for poly in range(base, base + 64):
+                    g.append("T 16 %s %x" % (d, poly))
+                    if poly % 16 == 0:
+                        g.append("X %x" % rng.getrandbits(16))
+                groups.append(g)
     # --- every split point of a message (A), standard and random polynomials
     rng = random.Random(ctx.subseed("splits"))
     for w in WIDTHS:
         for d in "ml":
-            for j in range(3 if quick else 24):
+            for j in range(5 if quick else 24):
                 poly = STD_POLYS[w][j % len(STD_POLYS[w])] if j % 2 == 0 else rng.getrandbits(w)
                 g = ["T %d %s %x" % (w, d, poly)]
                 for n in ([300, 64, 9, 1, 0] if j == 0 else [rng.randrange(0, 301), rng.randrange(0, 40)]):
                     g.append("A %x %s" % (gen_init(rng, w), hx(gen_data(rng, n))))
                 groups.append(g)
-    # --- exhaustive 8-bit value x byte space for some polynomials: every (init, byte) pair
-    rng = random.Random(ctx.subseed("crc8pairs"))
-    for poly in ([0x07, 0x31] if quick else list(range(0, 256, 5)) + [0xFF]):
-        for d in "ml":
-            g = ["T 8 %s %x" % (d, poly)]
-            for init in range(256):
-                # one message containing all 256 byte values in a rotated order: every table
-                # index is hit from this init within the first byte positions
-                rot = [(b + init) & 0xFF for b in range(0, 256, 1 if not quick else 5)]
-                g.append("C %x %s" % (init, hx(rot[:64])))
-            groups.append(g)
     # --- bit reversal
     rng = random.Random(ctx.subseed("rev"))
     g = ["R 8 %x" % x for x in range(256)]
     for w in (16, 32, 64):
         xs = set(boundary_words(w)) | {1 << i for i in range(w)} | {((1 << w) - 1) ^ (1 << i) for i in range(w)}
         xs |= {(1 << i) | (1 << j) for i in range(0, w, 3) for j in range(i + 1, w, 5)}
-        xs = sorted(xs) + [rng.getrandbits(w) for _ in range(1500 if quick else 60000)]
+        xs = sorted(xs) + [rng.getrandbits(w) for _ in range(6000 if quick else 100000)]
         g += ["R %d %x" % (w, x) for x in xs]
     if not quick:
         g += ["R 16 %x" % x for x in range(65536)]
@@ -215,7 +224,7 @@ def gen_groups(ctx):
             g.append("H %s %x -" % (kind, v))
             g.append("Z %s %x 00" % (kind, v))
             g.append("Z %s %x -" % (kind, v))
-        for _ in range(1500 if quick else 40000):
+        for _ in range(5000 if quick else 60000):
             v = rng.choice([0, 0, rng.getrandbits(32), 0xFFFFFFFF, rng.getrandbits(32)])
             d = gen_data(rng, gen_len(rng))
             r = rng.random()
@@ -344,6 +353,17 @@ class Oracle:
                         break
                 if reflect and op == "C" and len(twins) < 64:
                     twins.append((w, d, poly, init, data, obs[0] if obs else None))
+            elif op == "X":
+                init = int(tok[1], 16)
+                obs = [int(x, 16) for x in o[1:]]
+                for b in range(256):
+                    exp = ref_crc(w, d, poly, [b], init)
+                    if b >= len(obs) or obs[b] != exp:
+                        fails.append(dict(kind="crc", lines=[tline, "C %x %02x" % (init, b)],
+                                          what="a_crc%d%s poly=0x%x init=0x%x one byte 0x%02x differs from bit-serial division"
+                                          % (w, d if w > 8 else "(%s table)" % d, poly, init, b),
+                                          expected="%x" % exp, observed="%x" % (obs[b] if b < len(obs) else -1)))
+                        break
             elif op == "R":
                 ww, x = int(tok[1]), int(tok[2], 16)
                 exp = mirror(x, ww)
@@ -576,6 +596,7 @@ def run(ctx):
     kinds = {}
     sizes = {"0": 0, "1-8": 0, "9-64": 0, "65-255": 0, "256-300": 0}
     nontrivial = set()
+    n_values = 0
     tables = {}
     for g in groups:
         for ln in g:
@@ -586,6 +607,7 @@ def run(ctx):
                 tables[(tok[1], tok[2])] = tables.get((tok[1], tok[2]), 0) + 1
                 if int(tok[3], 16) != 0:
                     nontrivial.add(ln)
+                continue
             elif op in "CSPAHKZ":
                 dh = tok[2] if op in "CSPA" else tok[3]
                 n = 0 if dh == "-" else len(dh) // 2
@@ -595,10 +617,14 @@ def run(ctx):
             elif op == "R":
                 if int(tok[2], 16) != 0:
                     nontrivial.add(ln)
+            elif op == "X":
+                nontrivial.add(g[0] + "|" + ln)
+                n_values += 255
     ctx.count(evaluations=n_lines, nontrivial=len(nontrivial))
     ctx.cov["rule"] = ("evaluations = operation lines executed by both the C driver and the extracted model and compared; "
                        "distinct_nontrivial = distinct lines with a non-zero polynomial (T), non-empty data (C/S/P/A/H/K/Z) or non-zero argument (R)")
     ctx.cov["op_counts"] = kinds
+    ctx.cov["values_compared"] = n_lines + n_values + 255 * kinds.get("T", 0)
     ctx.cov["tables_by_width_order"] = {"%s%s" % k: v for k, v in sorted(tables.items())}
     ctx.cov["data_length_histogram"] = sizes
     ctx.cov["crc8_polynomials_exhaustive"] = 256
